@@ -36,11 +36,31 @@ PAIRS = [
     ("write_all(", "write("), ("get_u16()", "get_u8() as u16"), ("as u32", "as u16 as u32"), ("as u64", "as u32 as u64"),
     ("> 0", ">= 0"), ("== 0", "== 1"), ("!= 0", "!= 1"),
 ]
+# second operator set (--ops2): identifier confusions between things of the same type, dropped negations, constants - 1
+SWAPS = [
+    ("key_length", "extras_length"), ("extras_length", "key_length"), ("body_length", "key_length"), ("key_length", "body_length"),
+    ("timestamp", "time_to_live"), ("time_to_live", "timestamp"), ("flags", "expiration"), ("expiration", "flags"),
+    ("delta.delta", "delta.value"), ("delta.value", "delta.delta"), ("initial", "delta"),
+    ("Command::Add", "Command::Replace"), ("Command::Append", "Command::Prepend"), ("Command::Increment", "Command::Decrement"),
+    ("Command::GetKey", "Command::Get"), ("Command::SetQuiet", "Command::Set"), ("Command::AddQuiet", "Command::Add"),
+    ("Command::DeleteQuiet", "Command::Delete"), ("Command::QuitQuiet", "Command::Quit"), ("Command::FlushQuiet", "Command::Flush"),
+    ("BinaryRequest::Add(", "BinaryRequest::Replace("), ("BinaryRequest::Append(", "BinaryRequest::Prepend("),
+    ("BinaryRequest::GetKey(", "BinaryRequest::Get("), ("BinaryRequest::Increment(", "BinaryRequest::Decrement("),
+    ("BinaryResponse::Get(", "BinaryResponse::GetKey("), ("BinaryResponse::Set(", "BinaryResponse::Add("),
+    ("CacheError::KeyExists", "CacheError::NotFound"), ("CacheError::NotFound", "CacheError::KeyExists"),
+    ("CacheError::ArithOnNonNumeric", "CacheError::NotFound"), ("CacheError::ValueTooLarge", "CacheError::KeyExists"),
+    ("header.cas", "header.opaque"), ("opaque", "cas"), ("record.header", "new_record.header"), ("new_record.value", "record.value"),
+    ("self.storage.add(", "self.storage.replace("), ("self.storage.append(", "self.storage.prepend("), ("self.storage.increment(", "self.storage.decrement("),
+    ("into_quiet_get(", "into_quiet_mutation("), ("into_quiet_mutation(", "into_quiet_get("), ("into_quiet_mutation(", "Some("),
+    ("Ordering::Release", "Ordering::Relaxed"), ("connection_limit", "backlog_limit"), ("backlog_limit", "connection_limit"),
+    ("memory_limit", "memory_usage.load(atomic::Ordering::Relaxed)"), ("true", "false"), ("false", "true"),
+    ("if !", "if "), ("(!", "("), ("Entry::Occupied", "Entry::Vacant"), ("Some(", "None::<()>.or(Some("),
+]
 CONST = re.compile(r"(?<![\w.])(\d{1,4})(?![\w.])")
 CALL_STMT = re.compile(r"^\s*(self\.[a-z_\.]+\([^;]*\)|src\.[a-z_]+\([^;]*\)|[a-z_]+\.[a-z_]+\([^;]*\));\s*$")
 
 
-def sites(repo):
+def sites(repo, ops2=False):
     out = []
     for f in FILES:
         p = os.path.join(repo, f)
@@ -58,6 +78,26 @@ def sites(repo):
             if not s or s.startswith("//") or s.startswith("#[") or s.startswith("use ") or "debug!(" in s or "error!(" in s or "info!(" in s or "trace!(" in s or s.startswith("///"):
                 continue
             code = l.split("//")[0]
+            if ops2:
+                for a, b in SWAPS:
+                    if a.startswith("Some("):
+                        continue
+                    start = 0
+                    while True:
+                        k = code.find(a, start)
+                        if k < 0:
+                            break
+                        before = code[k - 1] if k > 0 else " "
+                        after = code[k + len(a)] if k + len(a) < len(code) else " "
+                        wordy = a[0].isalnum() or a[0] == "_"
+                        if not (wordy and (before.isalnum() or before == "_")) and not ((a[-1].isalnum() or a[-1] == "_") and (after.isalnum() or after == "_")):
+                            out.append((f, i, k, a, b, "swap"))
+                        start = k + len(a)
+                for m in CONST.finditer(code):
+                    n = int(m.group(1))
+                    if n > 0 and "0x" not in code[max(0, m.start() - 2) : m.start() + 1]:
+                        out.append((f, i, m.start(), m.group(1), str(n - 1), "const-1"))
+                continue
             for a, b in PAIRS:
                 start = 0
                 while True:
@@ -138,9 +178,10 @@ def main():
     ap.add_argument("--files", default="")
     ap.add_argument("--every", type=int, default=1, help="take every n-th site")
     ap.add_argument("--out", default="")
+    ap.add_argument("--ops2", action="store_true", help="second operator set: identifier swaps, dropped negations, constants - 1")
     a = ap.parse_args()
     props = [c["property_id"] for c in json.load(open(os.path.join(HERE, "MANIFEST.json")))["checks"]]
-    all_sites = sites("/repo")
+    all_sites = sites("/repo", a.ops2)
     if a.files:
         keep = a.files.split(",")
         all_sites = [s for s in all_sites if any(k in s[0] for k in keep)]
